@@ -255,3 +255,34 @@ def list_values_decimal(vi: int, n: int) -> None:
     assert ok_after, "%s with the value %s: list afterwards differs from the model (a value is not a position: no truncation)" % (text, v)
     assert ok_val, "%s with the value %s: result differs from the model" % (text, v)
     hlib.done()
+
+
+# subscripts written as number LITERALS address the same keys / positions as the same numbers held in variables
+LITKEYS = [
+    ("d = {}\nd[1.5] = v\n[keys(d), d[1.5], get(d, 1.5), get(d, k15)]", lambda v: [['1.5'], v, v, v]),
+    ("d = {2.5: v}\n[d[2.5], d[k25]]", lambda v: [v, v]),
+    ("d = {}\nd[2.0] = v\nd[2] = 7\nkeys(d)", lambda v: ['2.0', '2']),
+    ("d = {}\nd[1.2] = v\nd[1.7] = 7\nlen(d)", lambda v: 2),
+    ("d = {'1': 5}\nd[1.0] = v\ndel d[1.0]\nkeys(d)", lambda v: ['1']),
+    ("d = {}\nd[0.5] += v", None),
+    ("l = [10, 20, 30]\n[l[1.7], l[-1.5], l[0.0]]", lambda v: [20, 30, 10]),
+    ("l = [10, 20, 30]\nl[1.9] = v\ndel l[0.2]\nl", lambda v: [v, 30]),
+    ("d = {}\nd[-0] = v\nd[0] = 7\n[keys(d), d[-0]]", lambda v: [['0'], 7]),
+]
+
+
+def literal_keys(v: int) -> None:
+    """
+    pre: -3 <= v <= 3
+    post: True
+    """
+    hlib.enter(locals())
+    text, expf = LITKEYS[hlib.PARAM["lk"]]
+    v = hlib.concrete(v, -3, 3)
+    with hlib.native():
+        out = run_eval(text, {'v': v, 'k15': Decimal('1.5'), 'k25': Decimal('2.5')}, 1000, parser=PARSER_PLAIN)
+    if expf is None:
+        assert out[0] == 'err' and issubclass(out[1], ParserError), "compound write through a literal subscript to a missing key must fail with ParserError"
+    else:
+        assert out[0] == 'ok' and out[1] == expf(v), "%r gives %r, the model gives %r" % (text, out[1] if out[0] == 'ok' else out[1:], expf(v))
+    hlib.done()
